@@ -87,7 +87,7 @@ def run_shard(H: Harness) -> None:
 
 MANIFEST = {
     "engine": "prog",
-    "technique": "property-based testing: grammar-generated programs with every form of activation flag, differential against the reference interpreter (values + node observation multiset)",
+    "technique": "property-based testing + coverage-guided fuzzing (thorough tier: atheris/libFuzzer drives the same Hypothesis strategy with tawazi instrumented): grammar-generated programs with every form of activation flag, differential against the reference interpreter (values + node observation multiset)",
     "level_text": "Exploration over programs x flag forms x runtime flag values x configurations; the observation multiset shows exactly which nodes ran and what they received, so a flag evaluated on the wrong value, an ignored constant, or a deactivated nested DAG that still runs a node is a concrete counterexample.",
     "level_note": "Trusted: reference interpreter; the fragment restrictions listed in assumptions.",
 }
